@@ -66,6 +66,8 @@ def check_case(ctx, case):
                 ctx.fail("the new product is not the old one with only that module's segment replaced", case)
             if seg1.upper() != case["expected_segment"].upper():
                 ctx.fail("the replaced segment is {!r}, expected {!r}".format(seg1, case["expected_segment"]), case)
+    if case.get("backbone_site"):
+        ctx.note("replacement-with-site-in-backbone")
     ctx.note("chain={}".format(len(case["mods"])))
     ctx.case({k: v for k, v in case.items() if k != "info"}, nontrivial=True)
     ctx.op(asm.asm_op(new), None, reply=r1)
@@ -84,7 +86,20 @@ def run(ctx):
             wd, d2 = gen.gen_module(rng, enz, md["o5"], md["o3"], tlen=rng.randint(2, 20), blen=rng.randint(0, 12))
         except RuntimeError:
             continue
-        wd = gen.rot(wd, rng.randrange(len(wd)))
+        site, _, _ = gen.geom(enz)
+        if len(d2["b"]) >= 6 and rng.random() < 0.3:
+            # a replacement kept in a backbone that still carries a site of the enzyme (same orientation, outside
+            # the part): a valid module as long as the part's own site comes first — only overhangs and target count
+            j = rng.randint(2, len(d2["b"]) - 2)
+            cut = len(wd) - len(d2["b"]) + j
+            w2 = wd[:cut] + site + wd[cut:]
+            if gen.circ_count(w2, site) == 2 and gen.circ_count(w2, gen.rc(site)) == 1:
+                wd = gen.rot(w2, rng.randint(0, len(d2["b"]) - j))      # origin stays after the extra site
+                case["backbone_site"] = True
+            else:
+                wd = gen.rot(wd, rng.randrange(len(wd)))
+        else:
+            wd = gen.rot(wd, rng.randrange(len(wd)))
         if rng.random() < 0.1:
             wd = wd.lower()
         case["position"] = i
